@@ -32,7 +32,7 @@ ops   c01 [cfg, R, W, classes_only]      lines of list(Segment.split_lines(conso
                                          ([0], [w]); checked with meas_bounds_b against the resolved available width
       fits_raw [cfg, R, W]               as c01, checked with plain fits_b W lines (no domain guard); used only by the
                                          known-finding witness corpus/C01_known/*.json -- no generator emits it
-cfg = [console width, fix_d20]; results carry their outcome class ([0, v] ok / [1, e] documented / [2, k] escape).
+cfg = [console width, fix_d20, colour system (0 None / 1 standard / 2 truecolor; optional)]; results carry their outcome class ([0, v] ok / [1, e] documented / [2, k] escape).
 The spec-level checkers (spec.fits_dom, spec.meas_bounds, spec.meas_sound_dom, spec.text_meas, spec.not_wrapped) are
 evaluated on the IMPLEMENTATION's lines and measurements of every case; the structural minimum and the option domain
 they are conditioned on are computed by the model from the tree itself.
@@ -192,7 +192,8 @@ def gen_r(rng, depth, budget, cell=False):
             size = rng.choice([10, 100, 7])
             a = rng.randint(0, size)
             return [8, size, a, rng.randint(a, size), opt(rng, 0.3, lambda: rng.randint(0, 12))]
-        return [9, rng.choice([100, 100, 0, 3]), rng.randint(0, 120), opt(rng, 0.3, lambda: rng.randint(0, 12)),
+        total = rng.choice([100, 100, 0, 3, -5])
+        return [9, total, rng.choice([0, total, total, total + 7, -3, rng.randint(0, 120)]), opt(rng, 0.3, lambda: rng.randint(0, 12)),
                 1 if rng.random() < 0.2 else 0, rng.randint(0, 5)]
     k = rng.random()
     if k < 0.13:
@@ -268,8 +269,39 @@ def generate(rng, tier):
     for t, sm in zip(trees, smins):
         for _ in range(2):
             W = rwidth(rng, sm)
-            cases.append(("c01", [[W, fx], t, W, 0]))
+            cases.append(("c01", [[W, fx, rcolor(rng)], t, W, 0]))
+    bars = bar_samples()
+    for t, sm in zip(bars, model_smins(bars)):
+        for color in (0, 1, 2):
+            W = rng.choice([sm, sm + 1, sm + rng.randint(2, 12), rng.randint(max(sm, 1), 60)])
+            cases.append(("c01", [[W, fx, color], t, W, 0]))
     return cases
+
+
+def rcolor(rng):
+    return rng.choice([0, 0, 1, 2])
+
+
+def bar_samples():
+    """Bar / ProgressBar: full, empty, over-full, negative, total = 0, fixed width, pulse -- alone, last in a group, in a
+    panel, in a table cell"""
+    bars = [[9, tot, comp, w, pulse, 2] for tot in (100, 0, 3, -5) for comp in (0, tot, tot + 7, -3, 40)
+            for w in ([], [6]) for pulse in (0, 1) if not (pulse and comp not in (0, 40))]
+    bars += [[8, 10, a, b, w] for (a, b) in ((0, 10), (0, 0), (3, 7), (10, 10)) for w in ([], [6])]
+    tx = [0, s2t("ab"), [], [], []]
+    topts = [1, 1, 0, 0, 0, 0, [0, 1, 0, 1], 0, 1, 1, [], []]
+    col = [[], [], 1, 2, 0, [], [], [], []]
+    out = []
+    for i, b in enumerate(bars):
+        out.append(b)
+        k = i % 3
+        if k == 0:
+            out.append([6, [tx, b], 1])
+        elif k == 1:
+            out.append([2, b, [[3, 1, 0, 0], [], 1, i % 2, [], [0, 1, 0, 1]]])
+        else:
+            out.append([10, [topts, [3], [], [], [col, col], [0]], [[tx, b]]])
+    return out
 
 
 def kind_samples():
@@ -314,14 +346,19 @@ def generate_measure(rng, tier):
     for t, sm in zip(trees, smins):
         W = rwidth(rng, sm) if rng.random() < 0.6 else rng.randint(0, 200)
         avail = W if rng.random() < 0.7 else rng.randint(0, 200)
-        cases.append(("c09", [[max(W, avail, 1), fx], t, avail, 0]))   # console width >= every width handed down
+        cases.append(("c09", [[max(W, avail, 1), fx, rcolor(rng)], t, avail, 0]))   # console width >= every width handed down
     # Measurement.get with max_width omitted (= console width) and with max_width = 0: every tree, and one small
     # tree of every renderable kind at a narrow console
     for t, sm in zip(trees, smins):
         cw = rng.choice([rwidth(rng, sm), rng.randint(1, 12), rng.randint(1, 200)])
-        cases.append(("c09_get", [[max(cw, 1), fx], t, []]))
+        cases.append(("c09_get", [[max(cw, 1), fx, rcolor(rng)], t, []]))
         if rng.random() < 0.3:
             cases.append(("c09_get", [[max(cw, 1), fx], t, [rng.choice([0, 0, 1, max(cw, 1) + rng.randint(1, 40)])]]))
+    bars = bar_samples()
+    for t, sm in zip(bars, model_smins(bars)):
+        color = rng.choice([1, 2])
+        avail = rng.choice([sm, sm + rng.randint(1, 10), 30])
+        cases.append(("c09", [[max(avail, 1), fx, color], t, avail, 0]))
     for t in kind_samples():
         for cw in (1, 3, 7, 40):
             cases.append(("c09_get", [[cw, fx], t, []]))
@@ -436,10 +473,19 @@ def build(t):
     return _Cast(build(t[1]))
 
 
-def console(W):
+COLOR_SYSTEMS = [None, "standard", "truecolor"]
+
+
+def console(W, color=0):
+    """color: 0 = no colour system, 1 = "standard", 2 = "truecolor" (cfg[2]; only `color_system is not None` can change
+    the CELLS of a rendering -- ProgressBar draws its remaining part only then; styles are stripped by the observation)"""
     import io
     from rich.console import Console
-    return Console(width=W, file=io.StringIO(), color_system=None, legacy_windows=False, _environ={})
+    return Console(width=W, file=io.StringIO(), color_system=COLOR_SYSTEMS[color], legacy_windows=False, _environ={})
+
+
+def ccon(cfg):
+    return console(cfg[0], cfg[2] if len(cfg) > 2 else 0)
 
 
 def outcome(f, classes_only=False):
@@ -527,16 +573,16 @@ def known_col_minw(op, arg):
 def impl(op, arg):
     if op == "c01":
         cfg, t, W, co = arg
-        con = console(cfg[0])
+        con = ccon(cfg)
         return outcome(lambda: lines_at(con, build(t), W), co)
     if op == "fits_raw":
         cfg, t, W = arg
-        con = console(cfg[0])
+        con = ccon(cfg)
         return outcome(lambda: lines_at(con, build(t), W))
     if op == "c09":
         from rich.measure import Measurement
         cfg, t, avail, co = arg
-        con = console(cfg[0])
+        con = ccon(cfg)
         m = outcome(lambda: list(Measurement.get(con, build(t), avail)))
         if m[0] != 0:
             return [m, []]
@@ -546,7 +592,7 @@ def impl(op, arg):
     if op == "c09_get":
         from rich.measure import Measurement
         cfg, t, mw = arg
-        con = console(cfg[0])
+        con = ccon(cfg)
         if mw:
             return outcome(lambda: list(Measurement.get(con, build(t), mw[0])))
         return outcome(lambda: list(Measurement.get(con, build(t))))
@@ -556,7 +602,7 @@ def impl(op, arg):
         from rich.panel import Panel
         from rich import box as rbox
         cfg, s0, edits, avail = arg
-        con = console(cfg[0])
+        con = ccon(cfg)
         tx = Text(t2s(s0))
         pn = Panel(tx, box=rbox.SQUARE, expand=False)
         Measurement.get(con, pn, avail)          # measure the enclosing tree once before any edit
